@@ -135,6 +135,7 @@ func ruleC07Prec(p *Program, r *Run) {
 
 type assocClient struct {
 	BaseClient
+	InlinePredicates
 	p        *Program
 	fn       string
 	self     *types.Func
@@ -696,6 +697,7 @@ func ruleC07Keeps(p *Program, r *Run) {
 // signClient observes the construction of UnaryExpr nodes in unaryExpr.
 type signClient struct {
 	BaseClient
+	InlinePredicates
 	p          *Program
 	next       *types.Func
 	kinds      map[string]bool
@@ -889,6 +891,7 @@ func (c *synClient) PreAssign(e *Engine, st *State, lhs, rhs []ast.Expr, _ ast.S
 // stmtLoopClient: the statement loop of Parse is only left when next() reported the end of the tokens.
 type stmtLoopClient struct {
 	BaseClient
+	InlinePredicates
 	p      *Program
 	loop   *ast.ForStmt
 	next   *types.Func
@@ -952,6 +955,7 @@ func (c *stmtLoopClient) Return(e *Engine, st *State, ret *ast.ReturnStmt) {
 // sortTermClient: flags of the SortTerm at the successful returns of sortTerm, against the keywords read.
 type sortTermClient struct {
 	BaseClient
+	InlinePredicates
 	p    *Program
 	seen map[string]int
 	bad  map[string]string
